@@ -170,6 +170,10 @@ def parse_wrappers_cpp(text, model):
 
 # ------------------------------------------------------------------------------------------ sentinels (shared by generator and oracle)
 
+CB_OFF = {"cb_p2": 110, "cb_p3": 130}
+CB_ELEM = {"cb_p2": "Point2", "cb_p3": "Addr"}
+
+
 def arg_setup(kind, p, var, lang):
     """statements initialising the already declared variable `var`"""
     if kind == "u8":
@@ -190,6 +194,8 @@ def arg_setup(kind, p, var, lang):
         return "%s.context = g_buf + %d; %s.func = mock_cb_s3;" % (var, 50 + p, var)
     if kind == "cb_u64":
         return "%s.context = g_buf + %d; %s.func = mock_cb_u64;" % (var, 70 + p, var)
+    if kind in ("cb_p2", "cb_p3"):
+        return "%s.context = g_buf + %d; %s.func = mock_%s;" % (var, CB_OFF[kind] + p, var, kind)
     if kind == "ptr_const":
         return "%s = g_buf + %d;" % (var, 90 + p)
     if kind == "ptr_mut":
@@ -212,6 +218,8 @@ def arg_print(kind, var):
         return 'printf("cb(%%ld;%%s),", (long)((unsigned char *)%s.context - g_buf), %s.func == mock_cb_s3 ? "ok" : "bad");' % (var, var)
     if kind == "cb_u64":
         return 'printf("cb(%%ld;%%s),", (long)((unsigned char *)%s.context - g_buf), %s.func == mock_cb_u64 ? "ok" : "bad");' % (var, var)
+    if kind in ("cb_p2", "cb_p3"):
+        return 'printf("cb(%%ld;%%s),", (long)((unsigned char *)%s.context - g_buf), %s.func == mock_%s ? "ok" : "bad");' % (var, var, kind)
     if kind == "ptr_const":
         return 'printf("p%%ld,", (long)(%s - g_buf));' % var
     if kind == "ptr_mut":
@@ -240,6 +248,8 @@ def arg_expected(kind, p):
         return "cb(%d;ok)," % (50 + p)
     if kind == "cb_u64":
         return "cb(%d;ok)," % (70 + p)
+    if kind in ("cb_p2", "cb_p3"):
+        return "cb(%d;ok)," % (CB_OFF[kind] + p)
     if kind == "ptr_const":
         return "p%d," % (90 + p)
     if kind == "ptr_mut":
@@ -439,6 +449,24 @@ def plan_calls(infos, wrappers, lang):
     return calls, findings
 
 
+def pick_followup(c, calls):
+    """For a Self-returning call: another planned call on the same instance whose entry is by-reference and does not return
+    Self, preferring the LAST vtable field of the object (a later trait than the one that produced the object)."""
+    info = c["inst"]
+    order = [f for f, _ in info["fields"]]
+    best = None
+    for c2 in calls:
+        e2 = c2["entry"]
+        if c2["inst"] is not info or e2 is None or e2["m"]["recv"] == "own" or e2["m"]["ret"] == "self":
+            continue
+        if c2["w"]["self"] == "value":
+            continue
+        rank = order.index(e2["field"])
+        if best is None or rank > best[0]:
+            best = (rank, c2)
+    return None if best is None else {"w": best[1]["w"], "entry": best[1]["entry"]}
+
+
 def generate(case, lib, processed_name, processed_text):
     """-> (source text, calls, static findings, infos)"""
     lang = case["lang"]
@@ -455,6 +483,10 @@ def generate(case, lib, processed_name, processed_text):
         # the header does not mention S3: the mock's own sentinels still need the type
         src.append("struct S3 { uint8_t a; uint16_t b; uint64_t c; };")
     src.append(PRELUDE if lang == "c" else PRELUDE.replace("struct S3 g_s3arr", "S3 g_s3arr").replace("struct S3 v", "S3 v"))
+    used = set(k for t in model["traits"] for m in t["methods"] for k in m["args"])
+    for kind in ("cb_p2", "cb_p3"):
+        if kind in used:
+            src.append("static bool mock_%s(void *c, %s%s v) { (void)c; (void)v; return true; }" % (kind, "struct " if lang == "c" else "", CB_ELEM[kind]))
     for info in infos:
         if lang == "cpp":
             src.append("typedef decltype(std::declval<%s &>().container) Cont_%d;" % (info["alias"], info["idx"]))
@@ -465,6 +497,8 @@ def generate(case, lib, processed_name, processed_text):
             src.append("static const %s vt_%d_%s = { %s };" % (
                 info["vtbl_decl"][f], info["idx"], f, ", ".join("&" + _slot_name(info, e) if lang == "cpp" else _slot_name(info, e) for e in es) or "0"))
     for c in calls:
+        if c["entry"] is not None and c["entry"]["m"]["ret"] == "self":
+            c["followup"] = pick_followup(c, calls)
         src.append(_call_def(c, lib, lang))
     # C++: one extra block per instance that only constructs and destroys the object (the destructor is the drop helper)
     extra = []
@@ -529,7 +563,7 @@ def _call_def(c, lib, lang):
             if lang == "c":
                 ty = lib.resolve(ty)
             b.append("    %s;" % lib.decl(ty, "a%d" % p))
-            if kind in ("s3", "slice", "cb", "cb_u64") and lang == "c":
+            if kind in ("s3", "slice", "cb", "cb_u64", "cb_p2", "cb_p3") and lang == "c":
                 b.append("    memset(&a%d, 0, sizeof a%d);" % (p, p))
             b.append("    " + arg_setup(kind, p, "a%d" % p, lang))
             args.append("a%d" % p)
@@ -567,6 +601,43 @@ def _call_def(c, lib, lang):
         for f, _ in info["fields"]:
             b.append('    printf(" %s=%%s", ((const void *)r.%s == (const void *)obj.%s) ? "ok" : "bad");' % (f, f, f))
         b.append('    printf("\\n");')
+        fu = c.get("followup")
+        if fu is not None:
+            # use the returned object: call an entry (of the latest possible trait) through its wrapper ON THE RETURNED OBJECT.
+            # Guarded by the pointer comparison above, so that an uninitialised vtable is a verdict, not a crash.
+            w2, e2 = fu["w"], fu["entry"]
+            allok = " && ".join("(const void *)r.%s == (const void *)obj.%s" % (f, f) for f, _ in info["fields"])
+            b.append("    if (%s) {" % allok)
+            args2 = []
+            for p, kind in enumerate(e2["m"]["args"]):
+                ty = H.arg_type(kind)
+                if lang == "c":
+                    ty = lib.resolve(ty)
+                b.append("        %s;" % lib.decl(ty, "b%d" % p))
+                if kind in ("s3", "slice", "cb", "cb_u64", "cb_p2", "cb_p3") and lang == "c":
+                    b.append("        memset(&b%d, 0, sizeof b%d);" % (p, p))
+                b.append("        " + arg_setup(kind, p, "b%d" % p, lang))
+                args2.append("b%d" % p)
+            if lang == "c":
+                call2 = "%s(%s)" % (w2["name"], ", ".join(["&r"] + args2))
+            else:
+                call2 = "r.%s(%s)" % (w2["name"], ", ".join(args2))
+            b.append("        g_cur_cont = (const void *)&r.container;")
+            b.append('        printf("RCALL k=%d\\n");' % e2["k"])
+            r2 = e2["m"]["ret"]
+            if r2 == "void":
+                b.append("        %s;" % call2)
+                b.append('        printf("RRET void\\n");')
+            elif r2 in ("u64", "bool"):
+                b.append("        unsigned long long r2 = (unsigned long long)%s;" % call2)
+                b.append('        printf("RRET %llu\\n", r2);')
+            else:
+                b.append("        %s r2 = %s;" % ("struct S3" if lang == "c" else "S3", call2))
+                b.append('        printf("RRET {%u;%u;%llu}\\n", (unsigned)r2.a, (unsigned)r2.b, (unsigned long long)r2.c);')
+            b.append("        g_cur_cont = (const void *)&obj.container;")
+            b.append("    } else {")
+            b.append('        printf("RCALL skipped\\n");')
+            b.append("    }")
     if lang == "cpp":
         b.append('    printf("AFTERCALL\\n");')
         b.append("    }")
@@ -643,16 +714,22 @@ def parse_log(log):
     done = False
     for line in log.split("\n"):
         if line.startswith("CALL n="):
-            cur = {"events": [], "after": [], "ret": None, "end": None, "aftercall": False}
+            cur = {"events": [], "after": [], "ret": None, "end": None, "aftercall": False, "rcall": None, "revents": [], "rret": None, "in_r": False}
             blocks[int(line[7:])] = cur
         elif line == "DONE":
             done = True
         elif cur is None:
             continue
+        elif line.startswith("RCALL "):
+            cur["rcall"] = line[6:]
+            cur["in_r"] = line[6:] != "skipped"
+        elif line.startswith("RRET "):
+            cur["rret"] = line[5:]
+            cur["in_r"] = False
         elif line.startswith("EV "):
             ev = dict(kv.split("=", 1) for kv in line[3:].split(" ")[1:] if "=" in kv)
             ev["ev"] = line[3:].split(" ")[0]
-            (cur["after"] if cur["aftercall"] else cur["events"]).append(ev)
+            (cur["revents"] if cur["in_r"] else cur["after"] if cur["aftercall"] else cur["events"]).append(ev)
         elif line.startswith("RET "):
             cur["ret"] = line[4:]
         elif line == "AFTERCALL":
